@@ -105,6 +105,8 @@ void m_nested(void) { int x = nondet_int(); in_x = x; in_pnull = nondet_bool(); 
   PM_DEREF_EQ_T0 de; de.m.value._0 = v; PM_DEREF_NOT_GT_T0 dn; dn.m.m.value._0 = w;
   __CPROVER_assert(PM_DEREF_EQ(&de, &u) == (p != 0 && x == v), "[C10] POST nested_deref_of_eq");
   __CPROVER_assert(PM_DEREF_NOT_GT(&dn, &u) == (p != 0 && !(x > w)), "[C10] POST nested_deref_of_not_of_gt");
+  PM_NOT_DEREF_EQ_T0 nd; nd.m.m.value._0 = v;
+  __CPROVER_assert(PM_NOT_DEREF_EQ(&nd, &u) == !(p != 0 && x == v), "[C10] POST nested_not_of_deref_of_eq_accepts_exactly_what_the_deref_rejects_the_null_pointer_included");
   __CPROVER_assert(0, "REACH! nested"); }
 /* comparison matchers on double: every pair of IEEE-754 values, so unordered operands (NaN) included */
 double nondet_double(void); double in_dx, in_dv;
